@@ -1050,6 +1050,11 @@ func errTokenExits(f *ssa.Function, errTok int64) []errExit {
 				out = append(out, errExit{b, ret.Pos()})
 			}
 		case *ssa.Phi:
+			if f.Name() == "Lex" {
+				// the grammar lexers' Lex: the value-kind switch's default arm chooses ERR by
+				// assignment — that arm has its own obligation below ("Lex default arm")
+				continue
+			}
 			for i, e := range v.Edges {
 				if isErr(e) {
 					out = append(out, errExit{v.Block().Preds[i], ret.Pos()})
